@@ -267,7 +267,7 @@ def shrink_ops(rec):
         yield from engine_exprfresh.shrink_ops(rec)
         return
     ops = rec["ops"]
-    variables = {n: w for n, w in rec["config"]["vars"]}
+    variables = {v[0]: v[1] for v in rec["config"]["vars"]}
 
     def with_op(i, newop):
         r = copy.deepcopy(rec)
